@@ -14,11 +14,13 @@ TplC17q == {P("ok", "", <<"word">>), P("ok", "", <<"none", "spaces">>), P("ok", 
 TplC17t == (TplC17q \cup {P("ok", "", <<"none">>), P("ok", "", <<"word", "word">>),
                           P("rpc", "retriable", <<>>), P("rpc", "deadlinecode", <<>>), P("rpc", "other", <<>>)})
            \ {P("rpc", "any", <<>>)}
+\* C17, both tiers: every gRPC status code 1..16 by number, alone and in front of / behind a signing endpoint (N <= 2)
+TplC17c == {P("rpc", ToString(c), <<>>) : c \in 1..16} \cup {P("ok", "", <<"word">>)}
 NoBundle == {[cas |-> {}, lay |-> "none"]}
 
 \* C18: server identity x protocol range x client-certificate policy
 TlsKinds == {<<"ca1", "tls13">>, <<"ca1", "tls12">>, <<"ca2", "tls13">>, <<"foreign", "tls13">>, <<"selfsigned", "tls13">>,
-             <<"expired", "tls13">>, <<"wrongname", "tls13">>, <<"ca1", "tls11">>}
+             <<"expired", "tls13">>, <<"wrongname", "tls13">>, <<"ca1", "tls11">>, <<"hosttrusted", "tls13">>}
 Policies == {"require", "request", "ignore"}
 TplC18all == {T(k[1], k[2], p, "ok", "", <<"word">>) : k \in TlsKinds, p \in Policies}
 TplC18req == {T(k[1], k[2], "request", "ok", "", <<"word">>) : k \in TlsKinds}
